@@ -109,13 +109,15 @@ PROPS["C04"] = {
     "level": "exploration",
     "budget_s": {"quick": 80, "thorough": 2700},
     "modes": [{"name": "", "runs": {"quick": 2500, "thorough": 60000}, "chunk": 100},
-              {"name": "faults", "runs": {"quick": 1200, "thorough": 30000}, "chunk": 100}],
+              {"name": "faults", "runs": {"quick": 1200, "thorough": 30000}, "chunk": 100},
+              {"name": "bulk", "runs": {"quick": 160, "thorough": 4000}, "chunk": 10}],
     "rule": ("one run = one tape-generated history of 4-30 (quick) / 4-60 (thorough) API operations (REST create/patch/delete-by-query/list, gRPC transact/delete-by-query/list; all 2^4 query shapes; "
              "valid and invalid arguments: unknown namespaces, empty strings, missing subject, duplicates within a request, names reused as object and subject) against the real routers and gRPC servers; "
              "after EVERY op the response is checked against the multiset model R2, then a full listing and two tape-chosen query shapes are compared as multisets of exact strings, and a check and an expand are compared with R1/R4 on the model state. "
              "mode 'faults' additionally fails one SQL statement inside a third of the ops (io/busy/badconn/full/ctx, fail-stop): the op may fail, then the model does not move; it may never succeed with another effect. "
+             "mode 'bulk': 101..2500 (quick) / ..10001 (thorough) relationships inserted in bulk, listed with page sizes 0 / 1000 / 5000 / n-1 / n / n+1 / 100000, deleted by query and in bulk, compared with the model after every step (sizes are spread around every boundary an implementation might batch at; none is copied from the code). "
              "non-trivial = history applied >=3 writes; distinct = hash of the whole history with responses."),
-    "probes": ["writes_applied", "invalid_ops", "probe_multi_page_list", "probe_check_allowed"],
+    "probes": ["writes_applied", "invalid_ops", "probe_multi_page_list", "probe_check_allowed", "probe_over_1000_rows", "bulk_delete_by_query", "bulk_delete_explicit"],
     "real": REAL_S, "stub": STUB_S,
     "fault_kinds": {"io": "statement returns an I/O error", "busy": "'database is locked' (pop retries)", "badconn": "driver.ErrBadConn (database/sql retries outside a tx)", "full": "SQLITE_FULL", "ctx": "context.Canceled"},
     "assumptions": ["ops run to completion one at a time (conformance loop, not a concurrency test)", "model R2 (sim/sys.go) is the specification of the multiset store"],
@@ -156,12 +158,13 @@ PROPS["C07"] = {
     "budget_s": {"quick": 70, "thorough": 2400},
     "modes": [{"name": "", "runs": {"quick": 1500, "thorough": 40000}, "chunk": 50},
               {"name": "writes", "runs": {"quick": 1500, "thorough": 40000}, "chunk": 50},
-              {"name": "token", "runs": {"quick": 300, "thorough": 3000}, "chunk": 100}],
+              {"name": "token", "runs": {"quick": 300, "thorough": 3000}, "chunk": 100},
+              {"name": "traverse", "runs": {"quick": 150, "thorough": 4000}, "chunk": 10}],
     "rule": ("one run = n matching rows (n in {0,1,2,3,5,7,20,99,100,101,...,205}, with duplicates and non-matching rows) and a query of a tape-chosen shape, iterated page by page over REST or gRPC with page_size in {0,1,2,n-1,n,n+1,100,101}; "
              "mode 'writes': between page fetches another client inserts / deletes matching and non-matching rows. Oracles: every page <= page_size (0 => 100); every row alive for the whole iteration is returned, no content more often than it existed; "
-             "without a concurrent matching write the pages are exactly ceil(n/size) (token empty <=> last page) and the multiset is exact; mode 'token': malformed page tokens are answered 4xx / InvalidArgument-class. "
+             "without a concurrent matching write the pages are exactly ceil(n/size) (token empty <=> last page) and the multiset is exact; mode 'token': malformed page tokens are answered 4xx / InvalidArgument-class; one run in twelve uses 999..5003 rows with page sizes 500..7000; mode 'traverse' (the internal consumers of paging): a node with 99..3001 subject sets, exactly one of which - at a chosen position in storage order, biased to multiples of 100 / 1000 and the ends - contains the subject: the check must find it, must not allow an outsider, and the listing must return every row once. "
              "non-trivial = iteration needed >= 2 pages (mode token: every run); distinct = hash of (query, n, page size, transport, interleaving)."),
-    "probes": ["probe_boundary_size", "probe_100_plus_rows", "probe_default_page_size", "interleaved_matching_insert", "interleaved_matching_delete", "interleaved_other_write", "malformed_tokens_rest", "malformed_tokens_grpc"],
+    "probes": ["probe_boundary_size", "probe_100_plus_rows", "probe_default_page_size", "interleaved_matching_insert", "interleaved_matching_delete", "interleaved_other_write", "malformed_tokens_rest", "malformed_tokens_grpc", "probe_thousands_of_rows", "probe_wide_node_over_1000", "traverse_cases"],
     "real": REAL_S, "stub": STUB_S,
     "fault_kinds": {},
     "assumptions": ["rows with equal content are indistinguishable in API output, so exactly-once is checked per content as a multiset bound"],
